@@ -122,6 +122,7 @@ type c05Case struct {
 	Frame int      `json:"frame"`
 	Code  int      `json:"code"`
 	Ref   int      `json:"ref,omitempty"`
+	Codes []int    `json:"codes,omitempty"` // kind codeswitch: the genetic codes to use one after the other
 }
 
 const c05CodonAlpha = "ACGTURYSWKMBDHVNacgturyswkmbdhvn-.*?XxZ1 \xe9"
@@ -150,9 +151,7 @@ func c05Tasks(tier string) []mc.Task {
 		ts = append(ts, mc.Task{Name: fmt.Sprintf("codeswitch#%q", first), Run: func(c *mc.Ctx) {
 			forEachStringLen(c05CodonAlpha, 3, []byte{first}, func(s []byte) bool {
 				perms(3, func(p []int) {
-					for _, k := range p {
-						c05Check(c, c05Case{Kind: "seq", Seqs: []string{string(s)}, Frame: 0, Code: geneticCodes[k]})
-					}
+					c05Check(c, c05Case{Kind: "codeswitch", Seqs: []string{string(s)}, Frame: 0, Codes: []int{geneticCodes[p[0]], geneticCodes[p[1]], geneticCodes[p[2]]}})
 				})
 				return true
 			})
@@ -324,6 +323,28 @@ func c05Check(c *mc.Ctx, cs c05Case) {
 		c.Violation("C05/"+cs.Kind+"/"+clause, fmt.Sprintf("%s: case %s", desc, jsonStr(cs)), cs)
 	}
 	switch cs.Kind {
+	case "codeswitch":
+		// the same sequence under several codes one after the other in this process: each answer
+		// must be the one of its own code whatever was translated before (replayable as a whole)
+		for _, code := range cs.Codes {
+			sub := cs
+			sub.Kind, sub.Code, sub.Codes = "seq", code, nil
+			s := sub.Seqs[0]
+			var got string
+			var err error
+			pn, msg := mc.Guard(func() {
+				var tr align.Sequence
+				tr, err = align.NewSequence("s", []uint8(s), "").Translate(sub.Frame, code)
+				if err == nil {
+					got = tr.Sequence()
+				}
+			})
+			if pn {
+				viol("panic", msg)
+				return
+			}
+			c05Compare(c, cs, s, refTranslate(s, sub.Frame, code), got, err, viol)
+		}
 	case "seq":
 		s := cs.Seqs[0]
 		var got string
